@@ -782,3 +782,597 @@ Proof.
   - rewrite (step_active _ _ _ _ _ _ H). eapply wf_act; eauto.
   - rewrite step_inactive by exact H. exact Hw.
 Qed.
+
+(* ------------------------------------------------------------------ 2. the old data becomes reachable under the new path *)
+
+(* ------------------------------------------------------------------ 2. the old data becomes reachable under the new path *)
+Section Reach.
+Variables (cl : bool) (k : key) (d : data) (n : key).
+Hypothesis Hp : d_params d = true.
+Hypothesis Hr : d_recomp d = Some n.
+Hypothesis Hi : k_id n <> k_id k.
+
+Let Hkn : k <> n.
+Proof. intros E; subst; apply Hi; reflexivity. Qed.
+
+Definition good (d' : data) : Prop := grows d d' /\ (In (k_name k) (d_done d) -> In (k_name n) (d_done d')).
+Definition unc (x : key) (w : ws) : Prop := forall k2 d2, lookup k2 w = Some (Dir d2) -> d_recomp d2 = Some n -> k2 = x.
+Definition P1 (w : ws) : Prop :=
+  lookup k w = Some (Dir d) /\ (lookup n w = None \/ lookup n w = Some (Link k)) /\ unc k w.
+Definition P2 (w : ws) : Prop :=
+  exists d', lookup k w = Some (Dir d') /\ lookup n w = Some (Link k) /\ good d' /\ unc k w.
+Definition P3 (w : ws) : Prop :=
+  exists d', lookup n w = Some (Dir d') /\ good d' /\ unc n w.
+
+Let S := main_step true true cl.
+
+Lemma good_recomp : forall d', good d' -> d_recomp d' = Some n /\ d_params d' = true.
+Proof. intros d' [[C _] _]. unfold core in C. inversion C. split; congruence. Qed.
+
+Lemma prepass_step_P1 : forall w x, wf w -> P1 w -> wf (prepass_step w x) /\ P1 (prepass_step w x).
+Proof.
+  intros w x Hw (Lk & Ln & U). unfold prepass_step.
+  destruct (yielded w x && is_link w x) eqn:E; [|split; [exact Hw | repeat split; assumption]].
+  apply andb_true_iff in E; destruct E as [_ El].
+  split; [apply wf_unlink; exact Hw|]. split; [apply lookup_unlink_dir; exact Lk|]. split.
+  - destruct Ln as [Ln|Ln]; [left; apply lookup_unlink_none; exact Ln|].
+    destruct (key_eqb x n) eqn:E.
+    + apply key_eqb_eq in E; subst x. left. apply lookup_unlink_self; assumption.
+    + apply key_eqb_neq in E. right. rewrite lookup_unlink_other by congruence. exact Ln.
+  - intros k2 dd L R. apply (U k2 dd); [|exact R].
+    destruct (key_eqb k2 x) eqn:E.
+    + apply key_eqb_eq in E; subst k2. rewrite lookup_unlink_self in L by assumption. discriminate.
+    + apply key_eqb_neq in E. rewrite lookup_unlink_other in L by exact E. exact L.
+Qed.
+Lemma prepass_P1 : forall o w, wf w -> P1 w -> wf (prepass w o) /\ P1 (prepass w o).
+Proof.
+  unfold prepass; induction o; intros w Hw H; simpl; [auto|].
+  destruct (prepass_step_P1 w a Hw H) as [H1 H2]. apply IHo; assumption.
+Qed.
+
+Lemma unc_step : forall x w k2 d2 n2, wf w -> unc x w -> active w k2 d2 n2 -> k2 <> x -> unc x (act true cl w k2 n2).
+Proof.
+  intros x w k2 d2 n2 Hw U A2 Hk y dy' L R.
+  destruct (frame_rev true cl w k2 d2 n2 A2 y dy' Hw L) as (z & dz & Lz & [Cz _] & Hz).
+  assert (Rz : d_recomp dz = Some n) by (unfold core in Cz; inversion Cz; congruence).
+  pose proof (U z dz Lz Rz) as E. destruct Hz as [->|[-> _]]; [exact E | contradiction].
+Qed.
+
+(* an iteration on another entry keeps the situation "not yet repaired" *)
+Lemma step_P1_other : forall w k2, wf w -> P1 w -> k2 <> k -> P1 (S w k2).
+Proof.
+  intros w k2 Hw (Lk & Ln & U) Hk. unfold S.
+  destruct (active_dec w k2) as [(d2 & n2 & A2)|A2]; [|rewrite step_inactive by exact A2; repeat split; assumption].
+  rewrite (step_active _ _ _ _ _ _ A2).
+  assert (Hn2 : n2 <> n).
+  { intros ->. destruct A2 as (L2 & _ & R2 & _). apply Hk. exact (U k2 d2 L2 R2). }
+  split; [apply (frame_dir true cl w k2 n2 k d Lk); congruence|]. split.
+  - destruct Ln as [Ln|Ln].
+    + left. apply (frame_none true cl w k2 d2 n2 A2); [exact Ln | congruence].
+    + right. apply (frame_link true cl w k2 d2 n2 A2); [exact Ln|].
+      unfold exists_. rewrite (resolve_link _ _ _ _ Ln Lk). reflexivity.
+  - eapply unc_step; eauto.
+Qed.
+
+(* the iteration on the entry itself repairs it *)
+Lemma step_P1_self : forall w, wf w -> P1 w -> P2 (S w k) \/ (cl = true /\ P3 (S w k)).
+Proof.
+  intros w Hw (Lk & Ln & U). unfold S.
+  assert (A : active w k d n) by (repeat split; assumption).
+  rewrite (step_active _ _ _ _ _ _ A). unfold act.
+  assert (G : good (alias (k_name k) (k_name n) d)) by (split; [apply alias_grows | apply alias_done]).
+  destruct Ln as [Ln|Ln].
+  - (* the new path is free *)
+    assert (Epre : pre w n = w) by (unfold pre, is_link; rewrite Ln; reflexivity).
+    rewrite Epre. rewrite (resolve_none _ _ Ln).
+    destruct cl.
+    + right. split; [reflexivity|]. exists (alias (k_name k) (k_name n) d).
+      split; [rewrite lookup_update_dir, key_eqb_refl, lookup_rename_dst, Lk by exact Ln; reflexivity|].
+      split; [exact G|].
+      intros y dy L R.
+      destruct (key_eqb y n) eqn:E; [apply key_eqb_eq in E; exact E|]. apply key_eqb_neq in E. exfalso.
+      rewrite lookup_update_other in L by exact E.
+      destruct (key_eqb y k) eqn:E2.
+      * apply key_eqb_eq in E2; subst y. rewrite lookup_rename_src in L by exact Hkn. discriminate.
+      * apply key_eqb_neq in E2. rewrite lookup_rename_other in L by assumption. apply E2. exact (U y dy L R).
+    + left. exists (alias (k_name k) (k_name n) d).
+      split; [rewrite lookup_update_dir, key_eqb_refl, lookup_add_link, Lk; reflexivity|].
+      split; [rewrite lookup_update_other by congruence; rewrite lookup_add_link, Ln, key_eqb_refl; reflexivity|].
+      split; [exact G|].
+      intros y dy L R.
+      destruct (key_eqb y k) eqn:E; [apply key_eqb_eq in E; exact E|]. apply key_eqb_neq in E.
+      rewrite lookup_update_other in L by exact E. rewrite lookup_add_link in L.
+      destruct (lookup y w) as [e|] eqn:Ly; [inversion L; subst e; exact (U y dy Ly R)|].
+      destruct (key_eqb n y); discriminate.
+  - (* previously linked by an earlier repair *)
+    assert (Rn : resolve w n = Some (k, d)) by (apply (resolve_link _ _ _ _ Ln Lk)).
+    rewrite pre_exists by (unfold exists_; rewrite Rn; reflexivity). rewrite Rn, key_eqb_refl.
+    left. exists (alias (k_name k) (k_name n) d).
+    split; [rewrite lookup_update_dir, key_eqb_refl, Lk; reflexivity|].
+    split; [rewrite lookup_update_other by congruence; exact Ln|].
+    split; [exact G|].
+    intros y dy L R.
+    destruct (key_eqb y k) eqn:E; [apply key_eqb_eq in E; exact E|]. apply key_eqb_neq in E.
+    rewrite lookup_update_other in L by exact E. exact (U y dy L R).
+Qed.
+
+Lemma step_P2 : forall w k2, wf w -> P2 w -> P2 (S w k2).
+Proof.
+  intros w k2 Hw (d' & Lk & Ln & G & U). unfold S.
+  destruct (active_dec w k2) as [(d2 & n2 & A2)|A2]; [|rewrite step_inactive by exact A2; exists d'; auto].
+  rewrite (step_active _ _ _ _ _ _ A2).
+  destruct (good_recomp d' G) as [Rd' Pd'].
+  destruct (key_eqb k2 k) eqn:E.
+  - apply key_eqb_eq in E; subst k2.
+    destruct A2 as (L2 & _ & R2 & _). rewrite Lk in L2; inversion L2; subst d2. rewrite Rd' in R2; inversion R2; subst n2.
+    assert (Rn : resolve w n = Some (k, d')) by (apply (resolve_link _ _ _ _ Ln Lk)).
+    unfold act. rewrite pre_exists by (unfold exists_; rewrite Rn; reflexivity). rewrite Rn, key_eqb_refl.
+    exists (alias (k_name k) (k_name n) d').
+    split; [rewrite lookup_update_dir, key_eqb_refl, Lk; reflexivity|].
+    split; [rewrite lookup_update_other by congruence; exact Ln|].
+    split.
+    + destruct G as [G1 G2]. split; [eapply grows_trans; [exact G1 | apply alias_grows]|].
+      intros H. destruct (alias_grows (k_name k) (k_name n) d') as [_ I]. apply I. auto.
+    + intros y dy L R.
+      destruct (key_eqb y k) eqn:E; [apply key_eqb_eq in E; exact E|]. apply key_eqb_neq in E.
+      rewrite lookup_update_other in L by exact E. exact (U y dy L R).
+  - apply key_eqb_neq in E.
+    assert (Hn2 : n2 <> n).
+    { intros ->. destruct A2 as (L2 & _ & R2 & _). apply E. exact (U k2 d2 L2 R2). }
+    exists d'. split; [apply (frame_dir true cl w k2 n2 k d' Lk); congruence|].
+    split; [apply (frame_link true cl w k2 d2 n2 A2); [exact Ln | unfold exists_; rewrite (resolve_link _ _ _ _ Ln Lk); reflexivity]|].
+    split; [exact G|]. eapply unc_step; eauto.
+Qed.
+
+Lemma step_P3 : forall w k2, wf w -> P3 w -> P3 (S w k2).
+Proof.
+  intros w k2 Hw (d' & Ln & G & U). unfold S.
+  destruct (active_dec w k2) as [(d2 & n2 & A2)|A2]; [|rewrite step_inactive by exact A2; exists d'; auto].
+  rewrite (step_active _ _ _ _ _ _ A2).
+  destruct (good_recomp d' G) as [Rd' Pd'].
+  assert (E : k2 <> n).
+  { intros ->. destruct A2 as (L2 & _ & R2 & I2). rewrite Ln in L2; inversion L2; subst d2.
+    rewrite Rd' in R2; inversion R2; subst n2. apply I2; reflexivity. }
+  exists d'. split; [apply (frame_dir true cl w k2 n2 n d' Ln); congruence|].
+  split; [exact G|]. eapply unc_step; eauto.
+Qed.
+
+Definition repaired (w : ws) : Prop := P2 w \/ (cl = true /\ P3 w).
+
+Lemma pass_repaired : forall o w, wf w -> repaired w -> repaired (mainpass true true cl w o).
+Proof.
+  unfold mainpass; induction o; intros w Hw H; simpl; [exact H|].
+  apply IHo; [apply wf_step; exact Hw|].
+  destruct H as [H|[C H]]; [left; apply step_P2; assumption | right; split; [exact C | apply step_P3; assumption]].
+Qed.
+Lemma pass_repairs : forall o w, wf w -> P1 w -> In k o -> repaired (mainpass true true cl w o).
+Proof.
+  induction o; intros w Hw H Hin; [contradiction|].
+  change (mainpass true true cl w (a :: o)) with (mainpass true true cl (S w a) o).
+  destruct (key_eqb a k) eqn:E.
+  - apply key_eqb_eq in E; subst a. apply pass_repaired; [apply wf_step; exact Hw | apply step_P1_self; assumption].
+  - apply key_eqb_neq in E. apply IHo; [apply wf_step; exact Hw | apply step_P1_other; assumption|].
+    destruct Hin as [Hin|Hin]; [contradiction | exact Hin].
+Qed.
+
+Lemma repaired_reaches : forall w, repaired w ->
+  exists kf d', resolve w n = Some (kf, d') /\ core d' = core d /\ incl (d_done d) (d_done d') /\
+    (In (k_name k) (d_done d) -> found w n = true) /\ (cl = false -> kf = k).
+Proof.
+  intros w [(d' & Lk & Ln & [[C I] G] & _)|[Ccl (d' & Ln & [[C I] G] & _)]].
+  - exists k, d'. pose proof (resolve_link _ _ _ _ Ln Lk) as R.
+    repeat split; auto. intros H. unfold found. rewrite R. apply memZ_in. auto.
+  - exists n, d'. pose proof (resolve_dir _ _ _ Ln) as R.
+    repeat split; auto; [|congruence]. intros H. unfold found. rewrite R. apply memZ_in. auto.
+Qed.
+End Reach.
+
+(* After `deprecated list --fix [--cleanup]`: a job directory k whose recomputed identity n differs from
+   its name, whose new path is free (or already links to it) and is not claimed by another directory,
+   is reachable under n: by a link to k (always so without --cleanup), or because it was moved there;
+   and a submit of the replacement task finds the result of the old run (found).                      *)
+Theorem fix_reaches : forall cl o1 o2 w k d n,
+  wf w -> active w k d n -> In k o2 ->
+  (lookup n w = None \/ lookup n w = Some (Link k)) ->
+  (forall k2 d2, lookup k2 w = Some (Dir d2) -> d_recomp d2 = Some n -> k2 = k) ->
+  let w' := fix_ws true cl o1 o2 w in
+  exists kf d', resolve w' n = Some (kf, d') /\ core d' = core d /\ incl (d_done d) (d_done d') /\
+    (In (k_name k) (d_done d) -> found w' n = true) /\ (cl = false -> kf = k).
+Proof.
+  intros cl o1 o2 w k d n Hw (L & P & R & I) Hin Hfree Hunc. unfold fix_ws, run. simpl.
+  assert (H1 : P1 k d n w) by (repeat split; assumption).
+  apply (repaired_reaches cl k d n).
+  destruct cl; simpl.
+  - destruct (prepass_P1 k d n o1 w Hw H1) as [W2 H2]. apply pass_repairs; assumption.
+  - apply pass_repairs; assumption.
+Qed.
+
+(* a listing call (no --fix) leaves the workspace as it is, with or without --cleanup *)
+Theorem list_only_unchanged : forall cl o1 o2 w, fix_ws false cl o1 o2 w = w.
+Proof.
+  intros cl o1 o2 w. unfold fix_ws, run. simpl. rewrite andb_false_r.
+  unfold mainpass. induction o2; simpl; [reflexivity|]. rewrite step_nofix. exact IHo2.
+Qed.
+
+(* ------------------------------------------------------------------ witnesses: defects of the pinned commit, limits, satisfiable hypotheses *)
+Definition xk : key := mkkey 1 1 1.          (* jobs/m1.oldname/id1 *)
+Definition xn : key := mkkey 1 2 2.          (* jobs/m1.newname/id2 : the task class was renamed *)
+Definition xd : data := mkdata 7 true (Some xn) [1].   (* done marker: oldname.done *)
+Definition xw : ws := [(xk, Dir xd)].
+
+Lemma lookup_single : forall k e k2 e2, lookup k2 [(k, e)] = Some e2 -> k2 = k /\ e2 = e.
+Proof.
+  intros k e k2 e2; simpl. destruct (key_eqb k k2) eqn:E; [|discriminate].
+  apply key_eqb_eq in E. intros H; inversion H; auto.
+Qed.
+
+Lemma xw_hyps : wf xw /\ active xw xk xd xn /\ In xk [xk] /\ lookup xn xw = None /\
+  (forall k2 d2, lookup k2 xw = Some (Dir d2) -> d_recomp d2 = Some xn -> k2 = xk) /\ In (k_name xk) (d_done xd).
+Proof.
+  split; [repeat constructor; simpl; tauto|].
+  split; [repeat split; simpl; discriminate|].
+  split; [simpl; auto|]. split; [reflexivity|]. split; [|simpl; auto].
+  intros k2 d2 H _. apply lookup_single in H. tauto.
+Qed.
+
+(* Defect C20-1 of the pinned commit: the old directory becomes reachable under the new path, but when the
+   task class itself was renamed its result marker is named after the old task: a re-submit finds nothing. *)
+Theorem resubmit_refuted : exists o2 w k d n,
+  wf w /\ active w k d n /\ In k o2 /\ lookup n w = None /\
+  (forall k2 d2, lookup k2 w = Some (Dir d2) -> d_recomp d2 = Some n -> k2 = k) /\
+  In (k_name k) (d_done d) /\
+  (forall cl, exists_ (fix_ws_prefix true cl [] o2 w) n = true /\ found (fix_ws_prefix true cl [] o2 w) n = false).
+Proof.
+  exists [xk], xw, xk, xd, xn. destruct xw_hyps as (H1 & H2 & H3 & H4 & H5 & H6).
+  repeat (split; [assumption|]). intros [|]; vm_compute; auto.
+Qed.
+(* ... and the repaired command does find it on the same workspace *)
+Example resubmit_repaired : forall cl, found (fix_ws true cl [] [xk] xw) xn = true.
+Proof. intros [|]; vm_compute; reflexivity. Qed.
+
+(* Defect C20-2 of the pinned commit: `deprecated list --cleanup` (no --fix, announced as ignored) removes the
+   links of an earlier repair: the old result is not reachable any more under the new path.                   *)
+Definition yd : data := mkdata 7 true (Some xn) [1; 2].
+Definition yw : ws := [(xk, Dir yd); (xn, Link xk)].
+Theorem cleanup_nofix_refuted : exists o1 o2 w n,
+  wf w /\ found w n = true /\ found (fix_ws_prefix false true o1 o2 w) n = false.
+Proof.
+  exists [xk; xn], [xk; xn], yw, xn. split; [repeat constructor; simpl; intuition discriminate|]. vm_compute; auto.
+Qed.
+
+(* Limit (both versions): with --cleanup a second call may still change the tree.  Here a dangling link
+   x -> t comes to life when the first call moves a directory to t; the first loop of the second call
+   removes it.  No job data is involved; see cleanup_idempotent for the shapes on which a second call is a no-op. *)
+Definition zt : key := mkkey 1 2 3.
+Definition zx : key := mkkey 1 2 4.
+Definition zw : ws := [(xk, Dir (mkdata 7 true (Some zt) [])); (zx, Link zt)].
+Theorem cleanup_twice_refuted : exists o w,
+  wf w /\ (forall k e, lookup k w = Some e -> In k o) /\
+  fix_ws true true o o (fix_ws true true o o w) <> fix_ws true true o o w.
+Proof.
+  exists [xk; zx; zt], zw. split; [repeat constructor; simpl; intuition discriminate|]. split.
+  - intros k e H. simpl in H.
+    destruct (key_eqb xk k) eqn:E1; [apply key_eqb_eq in E1; subst; simpl; auto|].
+    destruct (key_eqb zx k) eqn:E2; [apply key_eqb_eq in E2; subst; simpl; auto | discriminate].
+  - vm_compute. discriminate.
+Qed.
+
+(* the hypotheses of fix_reaches / fix_idempotent / fix_link_total are satisfiable by a workspace with two
+   stale directories, one of them already linked by an earlier repair, and an unrelated link *)
+Definition e_k1 : key := mkkey 1 1 11.
+Definition e_n1 : key := mkkey 1 2 12.
+Definition e_k2 : key := mkkey 3 4 21.
+Definition e_n2 : key := mkkey 3 4 22.
+Definition e_d1 : data := mkdata 1 true (Some e_n1) [1].
+Definition e_d2 : data := mkdata 2 true (Some e_n2) [4].
+Definition e_w : ws := [(e_k1, Dir e_d1); (e_k2, Dir e_d2); (e_n2, Link e_k2); (mkkey 9 9 9, Link e_k1)].
+Example reach_hyps_sat :
+  wf e_w /\ active e_w e_k1 e_d1 e_n1 /\ In e_k1 [e_k2; e_k1] /\
+  (lookup e_n1 e_w = None \/ lookup e_n1 e_w = Some (Link e_k1)) /\
+  (forall k2 d2, lookup k2 e_w = Some (Dir d2) -> d_recomp d2 = Some e_n1 -> k2 = e_k1) /\
+  covers e_w [e_k2; e_k1] /\
+  active e_w e_k2 e_d2 e_n2 /\ lookup e_n2 e_w = Some (Link e_k2).
+Proof.
+  assert (D : forall k2 d2, lookup k2 e_w = Some (Dir d2) -> (k2 = e_k1 /\ d2 = e_d1) \/ (k2 = e_k2 /\ d2 = e_d2)).
+  { intros k2 d2 H. simpl in H.
+    destruct (key_eqb e_k1 k2) eqn:E1; [apply key_eqb_eq in E1; inversion H; auto|].
+    destruct (key_eqb e_k2 k2) eqn:E2; [apply key_eqb_eq in E2; inversion H; auto|].
+    destruct (key_eqb e_n2 k2); [discriminate|]. destruct (key_eqb (mkkey 9 9 9) k2); discriminate. }
+  split; [repeat constructor; simpl; intuition discriminate|].
+  split; [repeat split; simpl; discriminate|].
+  split; [simpl; auto|]. split; [left; reflexivity|].
+  split; [intros k2 d2 H R; destruct (D _ _ H) as [[-> ->]|[-> ->]]; [reflexivity | discriminate]|].
+  split; [intros k2 d2 H; destruct (D _ _ H) as [[-> _]|[-> _]]; simpl; auto|].
+  split; [repeat split; simpl; discriminate | reflexivity].
+Qed.
+Example reach_example : forall cl,
+  found (fix_ws true cl [e_k1; e_k2; e_n2; mkkey 9 9 9] [e_k2; e_k1] e_w) e_n1 = true /\
+  found (fix_ws true cl [e_k1; e_k2; e_n2; mkkey 9 9 9] [e_k2; e_k1] e_w) e_n2 = true.
+Proof. intros [|]; vm_compute; auto. Qed.
+Example untouched_hyp_sat : resolve e_w (mkkey 9 9 9) = Some (e_k1, e_d1).
+Proof. reflexivity. Qed.
+
+(* ------------------------------------------------------------------ 3'. --cleanup: a second call changes nothing (shape hypotheses) *)
+(* every link points directly at a job directory (with its params.json): what the repair itself creates *)
+Definition direct (w : ws) : Prop :=
+  forall x t, lookup x w = Some (Link t) -> exists dt, lookup t w = Some (Dir dt) /\ d_params dt = true.
+(* no directory sits on the new path of another one *)
+Definition clear (w : ws) : Prop := forall k d n, active w k d n -> forall dn, lookup n w <> Some (Dir dn).
+Definition nolinks (w : ws) : Prop := forall x t, lookup x w <> Some (Link t).
+
+Lemma in_lookup : forall w x e, wf w -> In (x, e) w -> lookup x w = Some e.
+Proof.
+  unfold wf; induction w as [|[k' e'] w IH]; simpl; intros x e Hw H; [contradiction|].
+  inversion Hw; subst. destruct H as [H|H].
+  - inversion H; subst. rewrite key_eqb_refl. reflexivity.
+  - destruct (key_eqb k' x) eqn:E; [|auto].
+    apply key_eqb_eq in E; subst. exfalso. apply H2. apply in_map_iff. exists (x, e); auto.
+Qed.
+
+Lemma prepass_step_dir_rev : forall w y x d, wf w -> lookup x (prepass_step w y) = Some (Dir d) -> lookup x w = Some (Dir d).
+Proof.
+  intros w y x d Hw. unfold prepass_step. destruct (yielded w y && is_link w y) eqn:E; [|auto].
+  apply andb_true_iff in E; destruct E as [_ El]. intros H.
+  destruct (key_eqb x y) eqn:E.
+  - apply key_eqb_eq in E; subst. rewrite lookup_unlink_self in H by assumption. discriminate.
+  - apply key_eqb_neq in E. rewrite lookup_unlink_other in H by exact E. exact H.
+Qed.
+Lemma prepass_step_link_rev : forall w y x t, lookup x (prepass_step w y) = Some (Link t) -> lookup x w = Some (Link t).
+Proof.
+  intros w y x t. unfold prepass_step. destruct (yielded w y && is_link w y); [|auto]. intros H.
+  destruct (key_eqb x y) eqn:E.
+  - apply key_eqb_eq in E; subst. exfalso. exact (lookup_unlink_self_nolink _ _ _ H).
+  - apply key_eqb_neq in E. rewrite lookup_unlink_other in H by exact E. exact H.
+Qed.
+Lemma prepass_step_dir : forall w y x d, lookup x w = Some (Dir d) -> lookup x (prepass_step w y) = Some (Dir d).
+Proof. intros w y x d H. unfold prepass_step. destruct (_ && _); [apply lookup_unlink_dir|]; exact H. Qed.
+Lemma wf_prepass_step : forall w y, wf w -> wf (prepass_step w y).
+Proof. intros w y H. unfold prepass_step. destruct (_ && _); [apply wf_unlink|]; exact H. Qed.
+Lemma wf_prepass : forall o w, wf w -> wf (prepass w o).
+Proof. unfold prepass; induction o; intros w H; simpl; [exact H | apply IHo, wf_prepass_step, H]. Qed.
+Lemma direct_prepass_step : forall w y, direct w -> direct (prepass_step w y).
+Proof.
+  intros w y H x t L. apply prepass_step_link_rev in L. destruct (H x t L) as (dt & Lt & Pt).
+  exists dt. split; [apply prepass_step_dir; exact Lt | exact Pt].
+Qed.
+Lemma prepass_link_rev : forall o w x t, lookup x (prepass w o) = Some (Link t) -> lookup x w = Some (Link t).
+Proof. unfold prepass; induction o; intros w x t H; simpl in H; [exact H|]. apply IHo in H. eapply prepass_step_link_rev; eauto. Qed.
+Lemma prepass_dir_rev : forall o w x d, wf w -> lookup x (prepass w o) = Some (Dir d) -> lookup x w = Some (Dir d).
+Proof.
+  unfold prepass; induction o; intros w x d Hw H; simpl in H; [exact H|].
+  apply IHo in H; [|apply wf_prepass_step; exact Hw]. eapply prepass_step_dir_rev; eauto.
+Qed.
+Lemma prepass_step_removes : forall w y t, wf w -> direct w -> lookup y w = Some (Link t) -> lookup y (prepass_step w y) = None.
+Proof.
+  intros w y t Hw Hd L. destruct (Hd y t L) as (dt & Lt & Pt). unfold prepass_step.
+  assert (Y : yielded w y = true) by (unfold yielded; rewrite (resolve_link _ _ _ _ L Lt); exact Pt).
+  assert (I : is_link w y = true) by (unfold is_link; rewrite L; reflexivity).
+  rewrite Y, I. simpl. apply lookup_unlink_self; assumption.
+Qed.
+Lemma prepass_nolink_at : forall o w x t, wf w -> direct w -> In x o -> lookup x (prepass w o) <> Some (Link t).
+Proof.
+  induction o; intros w x t Hw Hd Hin; [contradiction|].
+  change (prepass w (a :: o)) with (prepass (prepass_step w a) o).
+  destruct (key_eqb a x) eqn:E.
+  - apply key_eqb_eq in E; subst a. intros H. apply prepass_link_rev in H.
+    pose proof (prepass_step_link_rev _ _ _ _ H) as H0.
+    rewrite (prepass_step_removes _ _ _ Hw Hd H0) in H. discriminate.
+  - apply key_eqb_neq in E. destruct Hin as [Hin|Hin]; [contradiction|].
+    apply IHo; [apply wf_prepass_step; exact Hw | apply direct_prepass_step; exact Hd | exact Hin].
+Qed.
+
+(* invariant of the second loop on a link-free workspace *)
+Definition tgt (w : ws) : Prop := forall k d n, active w k d n ->
+  lookup n w = None \/ exists dn, lookup n w = Some (Dir dn) /\ d_recomp dn = Some n.
+Definition J (w : ws) : Prop := wf w /\ nolinks w /\ tgt w.
+Definition okc (w : ws) (k : key) : Prop := forall d n, active w k d n ->
+  exists dn, lookup n w = Some (Dir dn) /\ d_recomp dn = Some n.
+
+Lemma pre_nolinks : forall w n, nolinks w -> pre w n = w.
+Proof.
+  intros w n H. unfold pre, is_link. destruct (lookup n w) as [[d|t]|] eqn:L; try reflexivity. exfalso; exact (H n t L).
+Qed.
+Lemma act_cleanup_free : forall rep w k n, nolinks w -> lookup n w = None ->
+  act rep true w k n = if rep then update_dir n (alias (k_name k) (k_name n)) (rename k n w) else rename k n w.
+Proof. intros rep w k n H L. unfold act. rewrite (pre_nolinks _ _ H), (resolve_none _ _ L). reflexivity. Qed.
+Lemma act_occupied : forall rep cl w k n dn, nolinks w -> lookup n w = Some (Dir dn) -> k <> n -> act rep cl w k n = w.
+Proof.
+  intros rep cl w k n dn H L Hk. unfold act. rewrite (pre_nolinks _ _ H), (resolve_dir _ _ _ L).
+  assert (E : key_eqb n k = false) by (apply key_eqb_neq; congruence). rewrite E. reflexivity.
+Qed.
+Lemma active_neq : forall w k d n, active w k d n -> k <> n.
+Proof. intros w k d n (_ & _ & _ & I) E. subst. apply I; reflexivity. Qed.
+
+Lemma lookup_rename_link_rev : forall w k n x t, wf w -> lookup x (rename k n w) = Some (Link t) -> exists y, lookup y w = Some (Link t).
+Proof.
+  intros w k n x t Hw H. apply lookup_in in H. unfold rename in H. apply in_map_iff in H.
+  destruct H as [[y e] [H1 H2]]. simpl in H1. exists y. apply in_lookup; [exact Hw|].
+  destruct (key_eqb y k); inversion H1; subst e; exact H2 || (subst; exact H2).
+Qed.
+
+Section CleanupStep.
+Variables (rep : bool).
+Let S := main_step rep true true.
+
+Lemma J_step : forall w k2, J w -> J (S w k2).
+Proof.
+  intros w k2 (Hw & Hl & Ht). unfold S.
+  destruct (active_dec w k2) as [(d2 & n2 & A2)|A2]; [|rewrite step_inactive by exact A2; repeat split; assumption].
+  rewrite (step_active _ _ _ _ _ _ A2). pose proof (active_neq _ _ _ _ A2) as K2.
+  destruct (Ht _ _ _ A2) as [Ln|(dn & Ln & Rn)]; [|rewrite (act_occupied _ _ _ _ _ _ Hl Ln K2); repeat split; assumption].
+  split; [eapply wf_act; eauto|]. split.
+  - intros x t L. rewrite (act_cleanup_free _ _ _ _ Hl Ln) in L.
+    assert (L' : lookup x (rename k2 n2 w) = Some (Link t)).
+    { destruct rep; [|exact L]. rewrite lookup_update_dir in L. destruct (key_eqb n2 x); [|exact L].
+      destruct (lookup x (rename k2 n2 w)) as [[dd|tt]|]; [discriminate | exact L | discriminate]. }
+    destruct (lookup_rename_link_rev _ _ _ _ _ Hw L') as [y Ly]. exact (Hl y t Ly).
+  - intros k d n A. destruct A as (L & P & R & I).
+    destruct (frame_rev rep true w k2 d2 n2 A2 k d Hw L) as (y & dy & Ly & [Cy _] & Hy).
+    unfold core in Cy. inversion Cy as [[C1 C2 C3]].
+    destruct Hy as [->|[-> ->]].
+    + assert (Ak : active w k dy n) by (repeat split; congruence).
+      assert (Kk2 : k <> k2).
+      { intros ->. rewrite (act_cleanup_free _ _ _ _ Hl Ln) in L.
+        assert (X : lookup k2 (rename k2 n2 w) = None) by (apply lookup_rename_src; exact K2).
+        destruct rep; [rewrite lookup_update_other in L by exact K2|]; rewrite X in L; discriminate. }
+      rewrite (act_cleanup_free _ _ _ _ Hl Ln).
+      destruct (key_eqb n n2) eqn:E1.
+      * apply key_eqb_eq in E1; subst n. right.
+        assert (X : lookup n2 (rename k2 n2 w) = Some (Dir d2)) by (rewrite lookup_rename_dst by exact Ln; destruct A2 as (L2 & _); exact L2).
+        destruct A2 as (_ & _ & R2 & _).
+        destruct rep.
+        -- exists (alias (k_name k2) (k_name n2) d2). rewrite lookup_update_dir, key_eqb_refl, X. split; [reflexivity|].
+           pose proof (alias_core (k_name k2) (k_name n2) d2) as AC. unfold core in AC. inversion AC. congruence.
+        -- exists d2. auto.
+      * apply key_eqb_neq in E1.
+        assert (Y : lookup n (if rep then update_dir n2 (alias (k_name k2) (k_name n2)) (rename k2 n2 w) else rename k2 n2 w)
+                    = lookup n (rename k2 n2 w)) by (destruct rep; [apply lookup_update_other; exact E1 | reflexivity]).
+        rewrite Y.
+        destruct (key_eqb n k2) eqn:E2.
+        -- apply key_eqb_eq in E2; subst n. left. apply lookup_rename_src; exact K2.
+        -- apply key_eqb_neq in E2. rewrite lookup_rename_other by assumption. exact (Ht _ _ _ Ak).
+    + (* the directory just moved to its own new path: it is not active any more *)
+      exfalso. destruct A2 as (L2 & _ & R2 & _). rewrite Ly in L2; inversion L2; subst dy.
+      assert (En : n = n2) by congruence. subst n. apply I; reflexivity.
+Qed.
+
+Lemma okc_ok : forall w k, okc w k -> ok rep w k.
+Proof.
+  intros w k H d n A. destruct (H d n A) as (dn & Ln & Rn). exists n, dn. split; [apply resolve_dir; exact Ln|].
+  intros _ E. exfalso. exact (active_neq _ _ _ _ A (eq_sym E)).
+Qed.
+
+Lemma step_makes_okc : forall w k, J w -> okc (S w k) k.
+Proof.
+  intros w k (Hw & Hl & Ht). unfold S.
+  destruct (active_dec w k) as [(d & n & A)|A]; [|rewrite step_inactive by exact A; intros d n A'; exfalso; exact (A d n A')].
+  rewrite (step_active _ _ _ _ _ _ A). pose proof (active_neq _ _ _ _ A) as K.
+  destruct (Ht _ _ _ A) as [Ln|(dn & Ln & Rn)].
+  - rewrite (act_cleanup_free _ _ _ _ Hl Ln). intros d' n' (L' & _). exfalso.
+    assert (X : lookup k (rename k n w) = None) by (apply lookup_rename_src; exact K).
+    destruct rep; [rewrite lookup_update_other in L' by exact K|]; rewrite X in L'; discriminate.
+  - rewrite (act_occupied _ _ _ _ _ _ Hl Ln K). intros d' n' A'.
+    destruct (active_fun _ _ _ _ _ _ A A') as [-> ->]. exists dn; auto.
+Qed.
+
+Lemma step_keeps_okc : forall w k k2, J w -> okc w k -> okc (S w k2) k.
+Proof.
+  intros w k k2 HJ Hok. destruct (key_eqb k k2) eqn:E; [apply key_eqb_eq in E; subst; apply step_makes_okc; exact HJ|].
+  apply key_eqb_neq in E. destruct HJ as (Hw & Hl & Ht). unfold S.
+  destruct (active_dec w k2) as [(d2 & n2 & A2)|A2]; [|rewrite step_inactive by exact A2; exact Hok].
+  rewrite (step_active _ _ _ _ _ _ A2). intros d n (L & P & R & I).
+  destruct (frame_rev rep true w k2 d2 n2 A2 k d Hw L) as (y & dy & Ly & [Cy _] & Hy).
+  unfold core in Cy. inversion Cy as [[C1 C2 C3]].
+  destruct Hy as [->|[-> ->]].
+  - assert (Ak : active w k dy n) by (repeat split; congruence).
+    destruct (Hok _ _ Ak) as (dn & Ln & Rn). exists dn. split; [|exact Rn].
+    apply frame_dir; [exact Ln|]. intros ->.
+    destruct A2 as (L2 & _ & R2 & I2). rewrite Ln in L2; inversion L2; subst d2. rewrite Rn in R2; inversion R2; subst n2. apply I2; reflexivity.
+  - exfalso. destruct A2 as (L2 & _ & R2 & _). rewrite Ly in L2; inversion L2; subst dy.
+      assert (En : n = n2) by congruence. subst n. apply I; reflexivity.
+Qed.
+
+Lemma J_pass : forall o w, J w -> J (mainpass rep true true w o).
+Proof. unfold mainpass; induction o; intros w H; simpl; [exact H | apply IHo, J_step, H]. Qed.
+Lemma pass_keeps_okc : forall o w k, J w -> okc w k -> okc (mainpass rep true true w o) k.
+Proof. unfold mainpass; induction o; intros w k HJ H; simpl; [exact H|]. apply IHo; [apply J_step; exact HJ | apply step_keeps_okc; assumption]. Qed.
+Lemma pass_makes_okc : forall o w k, J w -> In k o -> okc (mainpass rep true true w o) k.
+Proof.
+  induction o; intros w k HJ Hin; [contradiction|].
+  change (mainpass rep true true w (a :: o)) with (mainpass rep true true (S w a) o).
+  destruct Hin as [->|Hin]; [apply pass_keeps_okc; [apply J_step; exact HJ | apply step_makes_okc; exact HJ]|].
+  apply IHo; [apply J_step; exact HJ | exact Hin].
+Qed.
+
+(* a directory that sits at its own recomputed path never moves *)
+Lemma settled_step : forall w x dx k2, lookup x w = Some (Dir dx) -> d_recomp dx = Some x -> lookup x (S w k2) = Some (Dir dx).
+Proof.
+  intros w x dx k2 L R. unfold S.
+  destruct (active_dec w k2) as [(d2 & n2 & A2)|A2]; [|rewrite step_inactive by exact A2; exact L].
+  rewrite (step_active _ _ _ _ _ _ A2). apply frame_dir; [exact L|]. intros ->.
+  destruct A2 as (L2 & _ & R2 & I2). rewrite L in L2; inversion L2; subst d2. rewrite R in R2; inversion R2; subst n2. apply I2; reflexivity.
+Qed.
+Lemma settled_pass : forall o w x dx, lookup x w = Some (Dir dx) -> d_recomp dx = Some x -> lookup x (mainpass rep true true w o) = Some (Dir dx).
+Proof. unfold mainpass; induction o; intros w x dx L R; simpl; [exact L|]. apply IHo; [apply settled_step; assumption | exact R]. Qed.
+
+(* a directory that appears during the loop at a path where there was none sits at its own recomputed path *)
+Lemma new_dir_settled : forall o w x dx, J w -> (forall d0, lookup x w <> Some (Dir d0)) ->
+  lookup x (mainpass rep true true w o) = Some (Dir dx) -> d_recomp dx = Some x.
+Proof.
+  induction o; intros w x dx HJ Hno H; [exfalso; exact (Hno _ H)|].
+  change (mainpass rep true true w (a :: o)) with (mainpass rep true true (S w a) o) in H.
+  destruct (lookup x (S w a)) as [[d0|t0]|] eqn:L0.
+  - assert (R0 : d_recomp d0 = Some x).
+    { unfold S in L0. destruct (active_dec w a) as [(d2 & n2 & A2)|A2]; [|rewrite step_inactive in L0 by exact A2; exfalso; exact (Hno _ L0)].
+      rewrite (step_active _ _ _ _ _ _ A2) in L0. destruct HJ as (Hw & _ & _).
+      destruct (frame_rev rep true w a d2 n2 A2 x d0 Hw L0) as (y & dy & Ly & [Cy _] & Hy).
+      destruct Hy as [->|[-> ->]]; [exfalso; exact (Hno _ Ly)|].
+      destruct A2 as (L2 & _ & R2 & _). rewrite Ly in L2; inversion L2; subst dy. unfold core in Cy. inversion Cy. congruence. }
+    rewrite (settled_pass o _ _ _ L0 R0) in H. inversion H; subst. exact R0.
+  - apply (IHo (S w a)); [apply J_step; exact HJ | intros d0 E; rewrite L0 in E; discriminate | exact H].
+  - apply (IHo (S w a)); [apply J_step; exact HJ | intros d0 E; rewrite L0 in E; discriminate | exact H].
+Qed.
+
+Lemma cleanup_pass_all_ok : forall o w, J w -> covers w o -> forall k, ok rep (mainpass rep true true w o) k.
+Proof.
+  intros o w HJ Hc k. apply okc_ok.
+  destruct (lookup k w) as [[d0|t0]|] eqn:L0.
+  - apply pass_makes_okc; [exact HJ | exact (Hc _ _ L0)].
+  - intros d n (L & _ & R & I). exfalso. apply I.
+    rewrite (new_dir_settled o w k d HJ) in R; [inversion R; reflexivity | intros d0 E; rewrite L0 in E; discriminate | exact L].
+  - intros d n (L & _ & R & I). exfalso. apply I.
+    rewrite (new_dir_settled o w k d HJ) in R; [inversion R; reflexivity | intros d0 E; rewrite L0 in E; discriminate | exact L].
+Qed.
+End CleanupStep.
+
+Lemma prepass_nolinks_id : forall o w, nolinks w -> prepass w o = w.
+Proof.
+  unfold prepass; induction o; intros w H; simpl; [reflexivity|].
+  assert (E : prepass_step w a = w).
+  { unfold prepass_step, is_link. destruct (lookup a w) as [[d|t]|] eqn:L; try (rewrite andb_false_r; reflexivity). exfalso; exact (H a t L). }
+  rewrite E. apply IHo; exact H.
+Qed.
+
+Theorem cleanup_idempotent : forall w o1 o2 o1' o2',
+  wf w -> direct w -> clear w -> (forall k e, lookup k w = Some e -> In k o1) -> covers w o2 ->
+  fix_ws true true o1' o2' (fix_ws true true o1 o2 w) = fix_ws true true o1 o2 w.
+Proof.
+  intros w o1 o2 o1' o2' Hw Hd Hc Ho1 Ho2. unfold fix_ws, run. simpl.
+  set (w1 := prepass w o1).
+  assert (Hl1 : nolinks w1).
+  { intros x t L. pose proof (prepass_link_rev _ _ _ _ L) as L0.
+    exact (prepass_nolink_at o1 w x t Hw Hd (Ho1 _ _ L0) L). }
+  assert (W1 : wf w1) by (apply wf_prepass; exact Hw).
+  assert (A1 : forall k d n, active w1 k d n -> active w k d n).
+  { intros k d n (L & P & R & I). repeat split; try assumption. eapply prepass_dir_rev; eauto. }
+  assert (J1 : J w1).
+  { split; [exact W1|]. split; [exact Hl1|]. intros k d n A. left.
+    destruct (lookup n w1) as [[dn|t]|] eqn:L; [|exfalso; exact (Hl1 _ _ L) | reflexivity].
+    exfalso. apply (Hc _ _ _ (A1 _ _ _ A) dn). eapply prepass_dir_rev; eauto. }
+  assert (C1 : covers w1 o2) by (intros k d L; apply (Ho2 k d); eapply prepass_dir_rev; eauto).
+  set (w2 := mainpass true true true w1 o2).
+  assert (J2 : J w2) by (apply J_pass; exact J1).
+  destruct J2 as (_ & Hl2 & _).
+  rewrite (prepass_nolinks_id o1' w2 Hl2).
+  apply all_ok_pass_id. apply cleanup_pass_all_ok; assumption.
+Qed.
+
+Example cleanup_idem_hyps_sat :
+  wf e_w /\ direct e_w /\ clear e_w /\ (forall k e, lookup k e_w = Some e -> In k [e_k1; e_k2; e_n2; mkkey 9 9 9]) /\ covers e_w [e_k2; e_k1].
+Proof.
+  destruct reach_hyps_sat as (H1 & A1 & _ & _ & _ & Hc & A2 & _).
+  assert (K : forall k e, lookup k e_w = Some e ->
+     (k = e_k1 /\ e = Dir e_d1) \/ (k = e_k2 /\ e = Dir e_d2) \/ (k = e_n2 /\ e = Link e_k2) \/ (k = mkkey 9 9 9 /\ e = Link e_k1)).
+  { intros k e H. simpl in H.
+    destruct (key_eqb e_k1 k) eqn:E1; [apply key_eqb_eq in E1; inversion H; auto|].
+    destruct (key_eqb e_k2 k) eqn:E2; [apply key_eqb_eq in E2; inversion H; auto|].
+    destruct (key_eqb e_n2 k) eqn:E3; [apply key_eqb_eq in E3; inversion H; auto|].
+    destruct (key_eqb (mkkey 9 9 9) k) eqn:E4; [apply key_eqb_eq in E4; inversion H; auto 6 | discriminate]. }
+  split; [exact H1|]. split; [|split; [|split; [|exact Hc]]].
+  - intros x t L. destruct (K _ _ L) as [[_ E]|[[_ E]|[[-> E]|[-> E]]]]; try discriminate; inversion E; subst.
+    + exists e_d2; split; reflexivity.
+    + exists e_d1; split; reflexivity.
+  - intros k d n A dn L. destruct A as (Lk & _ & R & _).
+    destruct (K _ _ Lk) as [[-> E]|[[-> E]|[[_ E]|[_ E]]]]; try discriminate; inversion E; subst; simpl in R; inversion R; subst; simpl in L; discriminate.
+  - intros k e L. destruct (K _ _ L) as [[-> _]|[[-> _]|[[-> _]|[-> _]]]]; simpl; auto.
+Qed.
